@@ -42,6 +42,8 @@ def mk_ts(spec, grid):
     import pandas as pd
     us = spec.get('us') or [0] * len(spec['ts'])
     idx = pd.DatetimeIndex([tstamp(i, grid) + datetime.timedelta(microseconds=u) for i, u in zip(spec['ts'], us)])
+    if spec.get('objidx') and len(idx):
+        idx = pd.Index([t.to_pydatetime() for t in idx], dtype=object)       # the datetimes held in a plain object Index (what a frame built from a dict of python datetimes / read from some stores carries)
     if len(spec['cols']) == 1 and not spec.get('frame'):
         return pd.Series([NAN if v is None else float(v) for v in spec['cols'][0]], index=idx, dtype=float)
     mat = np.array([[NAN if v is None else float(v) for v in c] for c in spec['cols']], dtype=float).T.reshape(len(idx), len(spec['cols']))
@@ -51,8 +53,8 @@ def mk_ts(spec, grid):
 def rows_of(obj):
     import pandas as pd
     if isinstance(obj, pd.Series):
-        return [(t.to_pydatetime(), (v,)) for t, v in zip(obj.index, obj.values.tolist())]
-    return [(t.to_pydatetime(), tuple(r)) for t, r in zip(obj.index, obj.values.tolist())]
+        return [(t.to_pydatetime() if hasattr(t, 'to_pydatetime') else t, (v,)) for t, v in zip(obj.index, obj.values.tolist())]
+    return [(t.to_pydatetime() if hasattr(t, 'to_pydatetime') else t, tuple(r)) for t, r in zip(obj.index, obj.values.tolist())]
 
 
 def req(a, b):
@@ -400,10 +402,13 @@ def gen_case(rng):
         if rng.random() < 0.12 and lb is not None:
             ub = dict(lb)    # degenerate window lb == ub
         case = {'kind': 'slice', 'grid': grid, 'x': spec, 'lb': lb, 'ub': ub, 'oc': rng.choice(['()', '(]', '[)', '[]', None, 'oc', 'cc']), 'tuple_form': rng.random() < 0.1, 'future': rng.random() < 0.25}
+        if rng.random() < 0.08:
+            spec['objidx'] = True
         if rng.random() < 0.3:
             case['lbf'] = rng.choice([None, 'Timestamp', 'dt64', 'str', 'date'])
             case['ubf'] = rng.choice([None, 'Timestamp', 'dt64', 'str', 'date'])
         elif rng.random() < 0.15 and not case['future'] and len(set(ts)) == len(ts):
+            spec.pop('objidx', None)
             case['xtz'] = rng.choice([['America/New_York', 'UTC'], ['Europe/London', 'Asia/Tokyo'], ['UTC', 'America/New_York'], ['Asia/Tokyo', 'Europe/London']])
             case['lbf'] = rng.choice([None, 'pydt'])
             case['tuple_form'] = False
